@@ -179,7 +179,7 @@ class C11(Prop):
     pid = "C11"
     prop_file = "Props/C11.v"
     module = "Props.C11"
-    gen_deps = ["Git"]
+    gen_deps = ["Git", "GitFn"]
     harness = ("h-text", "htext")
     nontrivial_rule = ("cases: a scan of all of `char` for std's White_Space set and for characters whose lower case holds an ASCII letter (against the model's literal list and its two exclusions); every one- and two-word description over a %d-word vocabulary (all 21 attribute words, the 10 colour words, numbers, '#' words, near misses) "
                        "and every three-colour description (exhaustive; thorough: every three-word description); every 3-character '#' word over a 19-symbol "
